@@ -1,44 +1,100 @@
+/-
+  C10 case generator.
+
+  Harness operations (harness/cmd/c10):
+    outcome   payload[0] = source           observable "value" | "error"     (modelled stream, see Model.lean)
+    survive   payload[0] = source           observable "ok" (a value or an error, no matter which)
+    surviveb  payload[0] = hex of raw bytes observable "ok"
+  A panic is reported as panic:<first arrai frame>:<message>, a dead child as crash:<reason>, a case
+  that exceeds the time limit twice as timeout.  The specification of every case is "!panic".
+
+  Streams (per 100 generated cases): 35 operators x operands of every kind (half of them through the
+  model of part (a), whose prediction value/error is the `model` column), 20 standard-library calls,
+  30 valid programs and their mutations, 15 raw text / raw bytes.
+-/
 import Arrai.C10.Fuzz
 
 namespace Arrai.C10
 open Arrai
 
-def mkCase (id stratum cls kind src : String) : Case :=
-  { id := id, cls := cls, kind := kind, stratum := stratum, model := "ok", spec := "!panic", payload := [src] }
+def mkCase (id stratum cls kind src : String) (model : String := "ok") : Case :=
+  { id := id, cls := cls, kind := kind, stratum := stratum, model := model, spec := "!panic", payload := [src] }
 
 def hexOf (bs : List Nat) : String :=
   let d (k : Nat) : Char := "0123456789abcdef".toList.getD k '0'
   String.ofList (bs.flatMap (fun b => [d (b / 16 % 16), d (b % 16)]))
 
+def nest (o c : String) (n : Nat) (inner : String) : String :=
+  String.join (List.replicate n o) ++ inner ++ String.join (List.replicate n c)
+
+/-- witnesses of the repaired defects (class good: they must stay repaired) and of the open findings -/
+def corpus (thorough : Bool) : List Case :=
+  let good (i : Nat) (src : String) := mkCase s!"C10-corpus-{i}" "corpus/repaired" "good" "survive" src
+  let kf (i : Nat) (cls src : String) := mkCase s!"C10-corpus-{i}" ("corpus/" ++ cls) cls "survive" src
+  [ good 0 "1 (<) 2", good 1 "{|a,b|}", good 2 "//seq.repeat(-1, 'a')", good 3 "//seq.join('a', <<1, 2>>)",
+    good 4 "[1, 2] with (@: 0, @item: 5)", good 5 "[,1]", good 6 "(1", good 7 "1 ->* x(2)", good 8 "x(:z)",
+    good 9 "(a: 1, ...)", good 10 "{'k': 1, ...}", good 11 "cond 1 {}", good 12 "//seq.repeat({})",
+    good 13 "{} :> \\x x", good 14 "[1] >>> \\i 2", good 15 "{(a: 1)} rank \\x 1", good 16 "{1, 2} rank \\x (r: x)",
+    good 17 "{2, 1} order 3", good 18 "{2, 1} order \\a \\b a.x < b.x", good 19 "$\"${true:02d}\"", good 20 "$\"${1::, }\"",
+    good 21 "//math.sin('x')", good 22 "//test.assert.size('', 1)", good 23 "//eval.value('abc')",
+    good 24 "let {1, 1} = {1}; 1", good 25 "{|@, @item| ({}, 1)}", good 26 "{0/0}", good 27 "{(0/0): 1}",
+    good 28 "//tuple({(@: 'a', @value: 2), (@: 'a', @value: 3)})", good 29 "//archive.tar.tar({1: 'x'})",
+    good 30 "1 ~ 2", good 31 "let [x, , y] = [1, 2, 3]; x", good 32 "[1] | [2]", good 33 "true nest |a| n",
+    good 34 "{|a, b| (1, 2)} nest ~|a| a", good 35 "{(a: 1), (b: 2)} < {(a: 1), (c: 2)}", good 36 "<<1>> < <<2>>",
+    good 37 "x unnest n", good 38 "\"\\q\"", good 39 "\"\\x4\"", good 40 "\"\\101\"", good 41 "%\\",
+    good 42 "//encoding.json.encode({1: 2})", good 43 "//bits.set(1.5)", good 44 "{|@| (0)} <&> {|@item| (5)}",
+    good 45 "{(@: 1, @value: 2), (@: 1, @value: 3)} orderby \\x 1", good 46 "{1: 2} <&> 3", good 47 "3 < (@neg: (@neg: 1))",
+    good 48 "{1, 2} => \\x \\y x < y", good 49 "//seq.split([[1], [2, 3]])([1, , 3])", good 50 "{|@, @char| (0, 'a')}",
+    kf 110 "KF-pinned-panics" "cond {(a: 1)} {{(a: 1)}: 1, _: 2}",
+    kf 100 "KF-pinned-panics" "(@: 1, @char: \"x\")", kf 101 "KF-pinned-panics" "(@: {}, @char: 65)",
+    kf 102 "KF-pinned-panics" "(@: {}, @item: 2)", kf 103 "KF-pinned-panics" "{(@: \"x\", @char: 1)}",
+    kf 104 "KF-pinned-panics" "let x = {(y: 0, z: 2), (y: 0, z: 3)}; cond x { {(:y, :z), ...}: 2 * y }",
+    kf 105 "KF-function-as-set" "//rel.union(\\x x)", kf 106 "KF-function-as-set" "(\\x x) count",
+    kf 107 "KF-function-as-set" "1 <: //seq.concat", kf 108 "KF-relation-bucket" "{('a, b': 1), (a: 1, b: 2)}",
+    kf 109 "KF-grammar-parse" "//grammar.parse(3)",
+    -- nesting: depth 3000 must still work (slowly); the crash witness is the open finding
+    mkCase "C10-corpus-200" "corpus/depth-3000" "KF-deep-nesting" "survive" (nest "(" ")" 3000 "1"),
+    mkCase "C10-corpus-201" "corpus/depth-100000" "KF-deep-nesting" "survive" (nest "(" ")" 100000 "1") ] ++
+  (if thorough then
+    [ mkCase "C10-corpus-202" "corpus/depth-3000" "KF-deep-nesting" "survive" (nest "[" "]" 3000 ""),
+      mkCase "C10-corpus-203" "corpus/depth-400-let" "KF-deep-nesting" "survive"
+        (String.join (List.replicate 400 "let x = ") ++ "1" ++ String.join (List.replicate 400 "; x")) ]
+   else [])
+
 def genCase (idx : Nat) : Gen Case := do
   let id := s!"C10-{idx}"
-  let r ← rand 10
-  if r < 4 then
+  let r ← rand 100
+  if r < 35 then
     let d ← rand 3
-    let (s, k) ← genOpExpr d
-    let s ← bindXY s
-    pure (mkCase id ("ops/" ++ k) "good" "survive" s)
-  else if r < 6 then
-    let (s, k) ← genLibCall
-    pure (mkCase id k "good" "survive" s)
-  else if r < 9 then
+    let (s, k, used) ← genOpExpr d
+    let (s, xy) ← bindXY s
+    pure (mkCase id ("ops/" ++ k) (classifyOps s (xy ++ used)) "survive" s)
+  else if r < 55 then
+    let (s, k, cls) ← genLibCall
+    pure (mkCase id k cls "survive" s)
+  else if r < 85 then
     let d ← rand 4
-    let p ← genProgT (d + 1)
+    let fnFree ← chance 3 5
+    let p ← genProgT fnFree (d + 1)
     let keep ← chance 1 8
     let m ← if keep then pure p else mutate p
-    pure (mkCase id (if keep then "prog" else "mut") "good" "survive" (render m))
+    let s := render m
+    pure (mkCase id (if keep then "prog" else "mut") (classifyText s) "survive" s)
   else
     let b ← chance 1 3
     if b then
       let n ← rand 40
       let bs ← genList (n + 1) (rand 256)
-      pure (mkCase id "raw/hex" "good" "surviveb" (hexOf bs))
+      -- raw bytes: none of the classes' shapes can be spelled without the ASCII letters they need; bytes are
+      -- drawn uniformly, so the text predicates are applied to the bytes read as Latin-1
+      let s := String.ofList (bs.map Char.ofNat)
+      pure (mkCase id "raw/hex" (classifyText s) "surviveb" (hexOf bs))
     else
       let (s, k) ← genRaw
-      pure (mkCase id k "good" "survive" s)
+      pure (mkCase id k (classifyText s) "survive" s)
 
-def gen (seed n : Nat) (_thorough : Bool) : List Case := Id.run do
-  let mut out := []
+def gen (seed n : Nat) (thorough : Bool) : List Case := Id.run do
+  let mut out := (corpus thorough).reverse
   for i in [0:n] do
     let (c, _) := (genCase i).run (seedOf seed (1000000 + i))
     out := c :: out
